@@ -308,7 +308,7 @@ PRIMARY = [
     ("lx_default_star", ["C11", "C01"]), ("lx_default_symbol", ["C11"]),
     ("lx_eval_dispatch_ops", ["C13", "C16", "C06", "C01"]), ("lx_eval_string_lite_n3", ["C13", "C06"]), ("lx_eval_percent_op", ["C13", "C06"]),
     ("lx_arg_or_value_", ["C13", "C01", "C09"]), ("lx_maybe_arg_assign", ["C13", "C02", "C04", "C01"]), ("lx_maybe_tail_arg", ["C13", "C14"]),
-    ("lx_macro_def_args", ["C13", "C14", "C09"]), ("lx_unterminated_str_direct", ["C10", "C07", "C09"]), ("lx_plumbing_marks", ["C02", "C03", "C04", "C09"]), ("lx_double_quoted_literal_direct", ["C07", "C10", "C16", "C11", "C06"]),
+    ("lx_macro_def_args", ["C13", "C14", "C09"]), ("lx_unterminated_str_direct", ["C10", "C07", "C09", "C06"]), ("lx_plumbing_marks", ["C02", "C03", "C04", "C09"]), ("lx_double_quoted_literal_direct", ["C07", "C10", "C16", "C11", "C06"]),
     ("lx_str_expr_start", ["C10"]), ("lx_identifier_k4", ["C16", "C06", "C11"]), ("lx_macro_identifier_k4", ["C16", "C06", "C03"]),
     ("lx_macro_call_k3", ["C03", "C06", "C13", "C09", "C01"]), ("lx_symbols_table", ["C11", "C06"]), ("lx_char_format_k5", ["C11", "C03", "C06"]),
     ("lx_default_classifier", ["C11", "C01", "C08", "C10"]), ("lx_semi_text_classifier", ["C04", "C01", "C13", "C14"]), ("lx_stat_opts_classifier", ["C04", "C06", "C01", "C14"]),
